@@ -50,6 +50,9 @@ def vacuum_leaf(conds, density_key):
             continue
         if (ckey == '(%s != 0)' % density_key and not pol) or (ckey == '(%s == 0)' % density_key and pol):
             return True
+        # densities are non-negative: `not (density > 0)` and `density <= 0` select the same vacuum piece
+        if (ckey == '(%s > 0)' % density_key and not pol) or (ckey == '(%s <= 0)' % density_key and pol):
+            return True
     return False
 
 
